@@ -69,6 +69,8 @@ type LeafOpts struct {
 	EKU       []x509.ExtKeyUsage
 	NotBefore time.Time
 	NotAfter  time.Time
+	// KeyUsage overrides the default (digital signature) when non-zero.
+	KeyUsage x509.KeyUsage
 }
 
 func NewLeaf(dir string, o LeafOpts) *Leaf {
@@ -82,6 +84,9 @@ func NewLeaf(dir string, o LeafOpts) *Leaf {
 	}
 	tmpl := &x509.Certificate{SerialNumber: big.NewInt(certSerial), Subject: pkix.Name{CommonName: o.Name}, NotBefore: o.NotBefore, NotAfter: o.NotAfter,
 		KeyUsage: x509.KeyUsageDigitalSignature, ExtKeyUsage: o.EKU, DNSNames: o.DNS}
+	if o.KeyUsage != 0 {
+		tmpl.KeyUsage = o.KeyUsage
+	}
 	parent, signKey := tmpl, key
 	if o.Signer != nil {
 		parent, signKey = o.Signer.Cert, o.Signer.Key
